@@ -177,11 +177,13 @@ type Link struct {
 }
 
 type Mesh struct {
-	Consts MeshConsts
-	Nodes  map[string]*netceptor.Netceptor
-	Cancel map[string]context.CancelFunc
-	Links  []*Link
-	mu     sync.Mutex
+	// NodeCostStyle makes Connect configure link costs through per-node overrides (BackendNodeCost)
+	NodeCostStyle bool
+	Consts        MeshConsts
+	Nodes         map[string]*netceptor.Netceptor
+	Cancel        map[string]context.CancelFunc
+	Links         []*Link
+	mu            sync.Mutex
 }
 
 func NewMesh(c MeshConsts) *Mesh {
@@ -212,10 +214,20 @@ func (m *Mesh) ConnectPrepared(a, b string, cost float64, prep func(*Link)) (*Li
 	if prep != nil {
 		prep(l)
 	}
-	if err := m.Nodes[a].AddBackend(&OneShotBackend{Sess: ea}, netceptor.BackendConnectionCost(cost)); err != nil {
+	modsA := []func(*netceptor.BackendInfo){netceptor.BackendConnectionCost(cost)}
+	modsB := []func(*netceptor.BackendInfo){netceptor.BackendConnectionCost(cost)}
+	if m.NodeCostStyle {
+		// the same effective cost, configured the other way: a backend-wide default that differs on the
+		// two sides and a per-node override naming the peer (plus an unrelated entry)
+		modsA = []func(*netceptor.BackendInfo){netceptor.BackendConnectionCost(cost + 3),
+			netceptor.BackendNodeCost(map[string]float64{b: cost, "someone-else": cost + 5})}
+		modsB = []func(*netceptor.BackendInfo){netceptor.BackendConnectionCost(cost + 7),
+			netceptor.BackendNodeCost(map[string]float64{a: cost})}
+	}
+	if err := m.Nodes[a].AddBackend(&OneShotBackend{Sess: ea}, modsA...); err != nil {
 		return nil, err
 	}
-	if err := m.Nodes[b].AddBackend(&OneShotBackend{Sess: eb}, netceptor.BackendConnectionCost(cost)); err != nil {
+	if err := m.Nodes[b].AddBackend(&OneShotBackend{Sess: eb}, modsB...); err != nil {
 		return nil, err
 	}
 	m.mu.Lock()
